@@ -320,16 +320,17 @@ json_align_level(sj_node *arr, alignment_iter_t *it, double start, int frate, in
 static int
 check_c14(const dc_result_t *R, const char *cd, const char *when)
 {
-    static const double starts[2] = { 0.0, 1.5 };
+    /* the given offset: none, a small one, a negative one, 5.5 hours and a week (where single precision no longer resolves milliseconds) */
+    static const double starts[5] = { 0.0, 1.5, -2.25, 20000.46, 604800.003 };
     int level, si, frate = (int)config_int(D->config, "frate"), i;
     for (level = 0; level <= 2; level++)
-        for (si = 0; si < 2; si++) {
+        for (si = 0; si < 5; si++) {
             double start = starts[si];
             const char *js = decoder_result_json(D, start, level), *tail;
             char ctx[96], shown[400];
             sj_node *root, *w, *e;
             size_t len;
-            snprintf(ctx, sizeof ctx, "%s, level %d, start %.1f", when, level, start);
+            snprintf(ctx, sizeof ctx, "%s, level %d, start %.3f", when, level, start);
             if (js == NULL) {
                 if (level == 0) {
                     mc_viol("C14/no-json", cd, "%s: decoder_result_json returned NULL", ctx);
